@@ -81,12 +81,12 @@ def run(ctx):
     # ---- one thread slow inside the locked region (a starved thread, a slow user allocator): however long the lock is held, nobody else enters
     stall_leg(ctx, exe, [200, 3600] if quick else [50, 1000, 3600, 6500, 11000])
     # ---- misuse while the lock is held: reported as a failure, run continues, lock not left held (deadline = no hang)
-    misuse_leg(ctx, exe, [0, 1, 2, 3, 4, 5])
+    misuse_leg(ctx, exe, [0, 1, 2, 3, 4, 5, 6, 7])
     return ctx.finish(
         rule="executions = real multi-threaded runs (2..16 threads, seeded scripts through all eleven thread-safe entry points, forced yields at "
              "lock acquire/release) whose totally ordered event logs (mutex seams + hook H3 table events) are validated by TLC against the lock "
-             "protocol; plus the same harness under ThreadSanitizer; plus six failure-while-locked scenarios (overrun, foreign and double release, overrun after a detector swap, an allocator that fails the test "
-             "because it cannot satisfy a new[] / malloc request) under a deadline; non-trivial = a run "
+             "protocol; plus the same harness under ThreadSanitizer; plus eight failure-while-locked scenarios (overrun, foreign and double release, overrun after a detector swap, an allocator that fails the test "
+             "because it cannot satisfy a new[] / malloc request, the default allocators with a request the C library refuses) under a deadline; non-trivial = a run "
              "with more than 10 lock-owner switches",
         distinct_nontrivial=max(2, nontrivial) if nontrivial >= 2 else nontrivial,
         assumptions=["real schedules are sampled (seeds x forced yields), enumeration is done on the model",
@@ -131,7 +131,8 @@ def stall_leg(ctx, exe, holds):
 
 
 def misuse_leg(ctx, exe, kinds):
-    names = {0: "overrun", 1: "foreign", 2: "double", 3: "overrun-after-detector-swap", 4: "allocator-refuses-new[]", 5: "allocator-refuses-malloc"}
+    names = {0: "overrun", 1: "foreign", 2: "double", 3: "overrun-after-detector-swap", 4: "allocator-refuses-new[]", 5: "allocator-refuses-malloc",
+             6: "c-library-refuses-new[]", 7: "c-library-refuses-malloc"}
     for k in kinds:
         logp = os.path.join(ctx.work, "misuse-%d.ndjson" % k)
         rc, out, to = ctx.run([exe, "misuse", str(k), logp], timeout=20)
